@@ -447,10 +447,17 @@ def judgeCompare (a : String) (v1 v2 : List F64.Bits) (alpha old new : F64.Bits)
       let want := if q > al && i.n1 < need.2 && i.n2 < need.2 then s!"need:{need.1}:{need.2}" else "-"
       okIf (i.warn == want) "wrong-sample-size-warning"
     | _, _ => "ok"
+  -- a comparison whose test could not be carried out (its error is passed on as a warning) has no
+  -- p-value to report: it must say "no significant difference", P = 1 (mutation sweep: `P: 0` there
+  -- would show a difference at every threshold)
+  let errp :=
+    if i.warn.startsWith "err" then
+      (match ev i.p with | .fin q => okIf (q == 1) "failed-test-claims-significance" | _ => "not-finite")
+    else "ok"
   let alphaV := if a == "exact" then "ok" else okIf (closeOrEqual true i.alpha alpha) "threshold-not-carried"
   let (shown, delta) := judgeDelta i.p i.alpha old new i.delta
   showVerdicts [("n", nOK), ("prange", prange), ("sym", sym), ("shuf", shuf), ("scale", scale), ("exact", exact),
-                ("alpha", alphaV), ("warn", warnV), ("shown", shown), ("delta", delta), ("str", judgeStr i.p i.n1 i.n2 i.str)]
+                ("alpha", alphaV), ("warn", warnV), ("errp", errp), ("shown", shown), ("delta", delta), ("str", judgeStr i.p i.n1 i.n2 i.str)]
     ++ kfTag (a == "normal" && (classX3 (v1.map toRat) (v2.map toRat) || classX3 (v1.map toRat) (v2.map toRat) k)) "X3"
 
 /-- a case on which the real code panicked: the property demands a result -/
